@@ -70,7 +70,7 @@ func (p *hpay) ComposeFrom(events []*eventlogger.Event) (eventlogger.EventType, 
 		return "", nil, errInjected
 	}
 	if oc.failKind == "gateable" && oc.failN == oc.composes {
-		return "composite", &gcomp{comp: comp{Ords: ords}}, nil
+		return "composite", &gcomp{comp: comp{Ords: ords}, flush: len(ords)%2 == 1}, nil
 	}
 	return "composite", &comp{Ords: ords}, nil
 }
